@@ -545,7 +545,64 @@ def run_import_geff(x):
     return x
 
 
+def gen_geff_edgemap(args):
+    for tm in ("ok", "bad"):
+        for cu in ("absent", "a"):
+            for em in ("nomap", "empty", "ok", "bad", "collide", "custom"):
+                for graph in range(2):
+                    yield {"m": {"tm": tm, "cu": cu, "em": em}, "graph": graph}
+
+
+def run_geff_edgemap(x):
+    import shutil
+    import tempfile
+    from pathlib import Path
+    import geff
+    import networkx as nx
+    from funtracks.import_export.import_from_geff import import_from_geff
+    nodes, edges = GEFF_GRAPHS[x["graph"]]
+    g = nx.DiGraph()
+    for n, t, y, xx in nodes:
+        g.add_node(n, t=t, y=y, x=xx, a=float(100 + n))
+    for u, v in edges:
+        g.add_edge(u, v, w=float(u * 100 + v) / 1000.0)
+    m = x["m"]
+    nm = {"time": "t" if m["tm"] == "ok" else "nocol", "pos": ["y", "x"]}
+    feats = {}
+    if m["cu"] == "a":
+        nm["a"] = "a"
+        feats["a"] = False
+    em = {"nomap": None, "empty": {}, "ok": {"iou": "w"}, "bad": {"iou": "nocol"}, "collide": {"a": "w"},
+          "custom": {"weight": "w"}}[m["em"]]
+    ekey = {"ok": "iou", "custom": "weight", "collide": "a"}.get(m["em"])
+    d = Path(tempfile.mkdtemp(prefix="vf_geffe_"))
+    x["carried"], x["graph_ok"] = False, False
+    try:
+        geff.write(g, d / "s.zarr", axis_names=["t", "y", "x"], axis_types=["time", "space", "space"])
+        kw = {}
+        if em is not None:
+            kw["edge_name_map"] = em
+            if ekey:
+                kw["edge_features"] = {ekey: False}
+        try:
+            tr = import_from_geff(d / "s.zarr", node_name_map=nm, node_features=feats or None, **kw)
+            x["err"] = "ok"
+        except Exception as e:  # noqa: BLE001
+            x["err"] = exc_name(e)
+            return x
+        x["graph_ok"] = sorted(tr.graph.nodes) == sorted(n for n, _, _, _ in nodes) and sorted(tr.graph.edges) == sorted(edges) \
+            and all(int(tr.graph.nodes[n]["time"]) == t and [float(v) for v in tr.graph.nodes[n]["pos"]] == [y, xx]
+                    for n, t, y, xx in nodes)
+        if ekey:
+            x["carried"] = all(tr.graph.edges[u, v].get(ekey) is not None
+                               and abs(float(tr.graph.edges[u, v][ekey]) - float(u * 100 + v) / 1000.0) < 1e-12 for u, v in edges)
+    finally:
+        shutil.rmtree(d, ignore_errors=True)
+    return x
+
+
 PARTS = {
+    "geff_edgemap": (gen_geff_edgemap, run_geff_edgemap),
     "import_geff": (gen_import_geff, run_import_geff),
     "import_df": (gen_import, run_import),
     "mapvalid": (gen_mapvalid, run_mapvalid),
